@@ -31,7 +31,7 @@ RULE = ('probe sessions (futures/spot, 1-2 routes, data routes, warm-up, both si
         'history signature); non-trivial = the fresh probe run has >= 1 trade.')
 ASSUMPTIONS = ['equality of results is NaN-aware deep equality; traces are compared event by event (order ids renamed to ordinals)',
                'a defect present in every process is invisible here (it belongs to the other properties)']
-MIN_OBS = {'histories_compared': 40, 'histories_with_aborted_session': 10, 'probes_with_trades': 8, 'argument_checks': 400, 'probe_argument_objects_reused': 15, 'third_call_checks': 8,
+MIN_OBS = {'probes_without_trades': 1, 'quiet_probe_after_calls_with_report_options': 2, 'histories_compared': 40, 'histories_with_aborted_session': 10, 'probes_with_trades': 8, 'argument_checks': 400, 'probe_argument_objects_reused': 15, 'third_call_checks': 8,
            'repeat_call_checks': 10, 'dimension:exchange_name': 4, 'dimension:type_same_name': 4, 'dimension:leverage': 4,
            'dimension:fee': 3, 'dimension:warmup': 4, 'dimension:routes': 4, 'dimension:simulator': 4, 'dimension:options': 3}
 SHARD_TIMEOUT = 600
@@ -39,7 +39,7 @@ JOB_TIMEOUT = 300
 OTHER_NAMES = ['Bybit USDT Perpetual', 'Binance Spot', 'Binance Perpetual Futures']
 
 
-def _probe_spec(rng, klass):
+def _probe_spec(rng, klass, quiet=False):
     spot = klass == 'spot'
     cfg = {'starting_balance': 10000, 'fee': 0.001, 'type': 'spot' if spot else 'futures'}
     if not spot:
@@ -54,6 +54,10 @@ def _probe_spec(rng, klass):
         # the probe also asks for candles of pairs / timeframes it does not route (earlier calls of a history do route them)
         sc['read_foreign'] = [['ETH-USDT', '1m'], ['SOL-USDT', '1m'], ['ETH-USDT', '3m'], ['SOL-USDT', '30m'], ['SOL-USDT', '3m'],
                               ['ETH-USDT', '30m'], ['BTC-USDT', '2h'], ['ETH-USDT', '2h'], ['SOL-USDT', '2h']]
+    if quiet:
+        # a session that never trades (its result is the `no trades` report); so do the earlier calls derived from it
+        for r in spec['routes']:
+            r['script']['p_enter'] = 0.0
     spec['no_isolate'] = True
     spec['exchange'] = rng.choice(['Sandbox', 'Sandbox', OTHER_NAMES[0] if not spot else OTHER_NAMES[1]])
     if rng.random() < 0.35:
@@ -360,6 +364,8 @@ def finalize(jobs, results, tier):
             fresh[job['pid']] = res['info']
             if res['info']['trades']:
                 cnt['probes_with_trades'] = cnt.get('probes_with_trades', 0) + 1
+            else:
+                cnt['probes_without_trades'] = cnt.get('probes_without_trades', 0) + 1
     for job, res in zip(jobs, results):
         if not res or res.get('error') or job['kind'] != 'history' or job['pid'] not in fresh:
             continue
@@ -370,6 +376,8 @@ def finalize(jobs, results, tier):
         if h.get('aborted_earlier'):
             cnt['histories_with_aborted_session'] = cnt.get('histories_with_aborted_session', 0) + 1
         sigs.append(repr((job['klass'], tuple(job['dims']), f['trades'] > 0)))
+        if f['trades'] == 0 and 'options' in job['dims']:
+            cnt['quiet_probe_after_calls_with_report_options'] = cnt.get('quiet_probe_after_calls_with_report_options', 0) + 1
         if f['result'] == h['result'] and f['events'] == h['events'] and f['error'] == h['error']:
             continue
         a, b = f['events'], h['events']
@@ -408,6 +416,8 @@ def _classify(job, f, h, ea, eb):
             return 'stale_config_memo:exchange'
     if any(x['config'] != probe['config'] and x.get('exchange', 'Sandbox') == pname for x in job['history']):
         return 'stale_config_memo:exchange'
+    if f['events'] == h['events'] and f['error'] == h['error']:
+        return 'probe_result_differs_after_history'
     return 'probe_differs_after_history'
 
 
@@ -417,11 +427,17 @@ def make_jobs(tier, seed):
     nprobes = 12 if tier == 'quick' else 120
     for p in range(nprobes):
         klass = 'spot' if p % 3 == 2 else 'futures'
-        probe = _probe_spec(rng, klass)
+        quiet = p % 6 == 4
+        probe = _probe_spec(rng, klass, quiet)
+        if quiet:
+            probe.pop('options', None)
         then, _ = _history(rng, probe, 1)
         jobs.append({'kind': 'fresh', 'pid': p, 'klass': klass, 'probe': probe, 'repeat': True, 'then': then[0]})
         for hcount in range(5 if tier == 'quick' else 8):
-            hist, dims = _history(rng, probe, rng.choice([1, 1, 2, 3, 4]), DIMS[len(jobs) % len(DIMS)])
+            first_dim = DIMS[len(jobs) % len(DIMS)]
+            if quiet and hcount in (0, 3):
+                first_dim = 'options'
+            hist, dims = _history(rng, probe, rng.choice([1, 1, 2, 3, 4]), first_dim)
             jobs.append({'kind': 'history', 'pid': p, 'klass': klass, 'probe': probe, 'history': hist, 'dims': dims,
                          'reuse_at': rng.choice([None, 0, 0, len(hist) - 1])})
     return jobs
